@@ -9,26 +9,26 @@ HOOK_COMMITS = ["6e1d5dd", "092527b", "70942f2", "7e1ebbc", "243e756", "1deda3c"
 
 CHECKS = {
     "C04": dict(
-        text="Partial: decides (a) every solver configuration / start density / restart history reaches the same result class per geometry. TLC enumerates the walks of SCFHistory (sequences of solves over neighbouring geometries x start density {cold, density of the previous solve, perturbed} x 10 solver configurations incl. SP2, Pulay, fixed/adaptive mixing, UHF singlet, loose/tight thresholds); PathIndependent holds on the model given C03's FlagTruthful and the premise of a single stable closed-shell solution. Exported walks are replayed on the real code; all unflagged solves at one geometry must agree in energy, forces, charges and occupied orbital energies within K*max(eps_i,eps_j)+floor.",
+        text="Partial: decides (a) every solver configuration / start density / restart history reaches the same result class per geometry. TLC enumerates the walks of SCFHistory (sequences of solves over neighbouring geometries x start density {cold, density of the previous solve, perturbed} x 12 solver configurations incl. SP2 down to below the threshold floor, Pulay, fixed/adaptive mixing, UHF singlet, loose/tight thresholds); PathIndependent holds on the model given C03's FlagTruthful and the premise of a single stable closed-shell solution. Exported walks are replayed on the real code, alone and as rows of mixed batches whose members converge at different iterations; all unflagged solves of one row at one geometry must agree in energy, forces, charges and occupied orbital energies within K*max(eps_i,eps_j)+floor.",
         note="Not decided: monotone approach to the limit under tightening. K is calibrated (largest observed ratio recorded in the evidence); premise: small near-equilibrium closed-shell molecules. Each solve is also covered by C03's residual predicates.",
         tech="explicit TLA+ model (SCFHistory) enumerated by TLC; exported walks replayed on the real solvers, result classes compared",
         ref="DESIGN.md §4 C04",
     ),
     "C07": dict(
-        text="Partial: decides acceptance of caller-supplied differentiable parameters (leaf, non-leaf network output, callable of the geometry) and reachability of the caller's tensor by reverse-mode differentiation of Etot/Hf (every backward mode) and of orbital energies, gap, charges (implicit / unrolled mode), plus that a geometry-dependent parameter changes the force. TLC checks ParamFlow (link of the parameter tensor through call -> merge -> copy -> integrals -> SCF stage) for every method x parameter name x source x backward mode; the shipped deep copy is refuted as a spec mutant. Each exported row is replayed on the real Energy module (C/N/O/H molecule) and the gradient of each output w.r.t. the caller's leaf is projected to {raised, none, zero, nonzero, nonfinite}.",
-        note="Not decided: gradients equal finite differences; Hessian symmetry (numeric).",
-        tech="explicit TLA+ model (ParamFlow) checked by TLC; one replay per exported row with autograd reachability projection",
+        text="Decides acceptance of caller-supplied differentiable parameters (leaf, non-leaf network output, callable of the geometry), reachability of the caller's tensor by reverse-mode differentiation of Etot/Hf (every backward mode) and of orbital energies, gap, charges (implicit / unrolled mode), that every path of a parameter into the Fock step (direct one-centre terms, derived additive terms -> two-centre integrals -> core Hamiltonian) is credited exactly once, and that a geometry-dependent parameter changes the force. TLC checks ParamFlow (link of the parameter tensor through call -> merge -> copy -> integrals -> SCF stage, path multiplicities) for every method x parameter name x source x backward mode: Accepted, ReachesCaller, EachPathOnce, liveness; the shipped deep copy and the shipped 'saved inputs keep their history' implicit backward are refuted as spec mutants. Each exported row is replayed on the real Energy module (C/N/O/H molecule): the gradient of each output w.r.t. the caller's leaf is projected to {raised, none, zero, nonzero, nonfinite}, and its directional derivative is compared with a Richardson-extrapolated central difference of converged single points; extra rows use batches whose members converge at different iterations under every solver, and compare unrolled-mode Hessian columns with finite differences of the forces.",
+        note="Gradient values are a monitored numeric predicate (one fixed direction per row, tolerance 5e-4 relative with floor 1e-3, largest observed ratio recorded in the evidence), not something TLC computes. Degenerate levels are avoided by displaced geometries. Hessian: four columns per row.",
+        tech="explicit TLA+ model (ParamFlow) checked by TLC; one replay per exported row with autograd reachability projection and finite-difference comparison",
         ref="DESIGN.md §4 C07",
     ),
     "C14": dict(
-        text="Partial: decides Etot = Eelec + Enuc (+ active excitation energy), Hf = Etot - Eiso + atomic heats (the spec's own MOPAC table), gap = LUMO - HOMO of ascending orbital energies (per spin for UHF), charges follow from the density diagonal and sum to the molecular charge, electron count, and the currency of every published attribute. TLC checks Publish (paths x published attribute sets: Current) and evaluates the linear identities on fixed-point integers (1e-6 eV / 1e-6 e) logged from the real API after the second of two calls on one molecule object at different geometries: molecules/ions/padded batches x MNDO/AM1/PM3/PM6_SP x solvers x RHF/UHF x CIS/RPA active states x XL-BOMD path.",
-        note="Not decided: orbital energies are eigenvalues of the reported Fock operator; dipole formula and its translation behaviour.",
+        text="Decides Etot = Eelec + Enuc (+ active excitation energy), Hf = Etot - Eiso + atomic heats (the spec's own MOPAC table), gap = LUMO - HOMO (highest occupied / lowest virtual entry of the reported orbital energies, per spin for UHF; ascending on a fresh molecule object, ascending up to the orbital-tracking permutation inside the occupied and virtual blocks on a re-evaluated closed-shell object), every reported (orbital, energy) pair is an eigenpair of the Fock matrix the solver returned, charges follow from the density diagonal and sum to the molecular charge, electron count, dipole translation behaviour (invariant for neutral molecules, shift = charge x displacement for ions) and rotation covariance, and the currency of every published attribute. TLC checks Publish (paths x published attribute sets: Current) and evaluates the identities on fixed-point integers (1e-6 eV / 1e-6 e) logged from the real API after the second of two calls on one molecule object at different (displaced or 90-degree rotated) geometries, plus a third calculation at a translated geometry: molecules/ions/padded batches in both row orders x MNDO/AM1/PM3/PM6_SP x solvers x RHF/UHF x CIS/RPA active states incl. the top root x XL-BOMD path.",
+        note="Not decided: the hybridisation term of the dipole formula beyond its translation/rotation behaviour. The Fock matrix is the one returned by the code's solver (captured at the scf_loop boundary). On a re-evaluated closed-shell molecule object the code deliberately keeps orbital energies in tracked-orbital order; 'ascending' is required of fresh objects only (DESIGN.md A.5).",
         tech="explicit TLA+ module (Publish) whose identities TLC evaluates on fixed-point logs of the real published attributes",
         ref="DESIGN.md §4 C14",
     ),
     "C16": dict(
         text="Partial: decides the per-molecule bookkeeping of the batched Davidson solver (finished only when all roots passed the residual test, finished results frozen, subspace bound, collapse/expansion arithmetic, cap raises), ordering/positivity, RPA <= CIS; monitors orthonormality, residual, agreement with a dense diagonalisation and independence of start guess / amplitude reuse / number of roots / batch composition. TLC checks Davidson incl. liveness (the coded StagnationExit violates DoneMeansConverged on the model); every recorded solve (hooks dav.*) is validated against the model by TLC (DavidsonTrace), and a stagnation exit with residual above tolerance is a violation.",
-        note="The dense reference matrix is assembled with the code's own sigma routine (nov <= 40), so 'eigenpair of the true response matrix' is not decided independently. RPA and heterogeneous-batch solvers are checked at API level only.",
+        note="The dense reference matrices are assembled with the code's own sigma routine (nov <= 40), so 'eigenpair of the true response matrix' is not decided independently. RPA and heterogeneous-batch solvers have no hooks: API-level predicates only (RPA: residual of both coupled equations, X.X - Y.Y = 1, dense (A-B)(A+B) spectrum, amplitude reuse, batches whose rows finish at different iterations).",
         tech="explicit TLA+ model (Davidson) checked by TLC; hook traces of the real solver validated by TLC (DavidsonTrace); monitored eigenpair predicates",
         ref="DESIGN.md §4 C16",
     ),
@@ -51,20 +51,20 @@ CHECKS = {
         ref="DESIGN.md §4 C05",
     ),
     "C08": dict(
-        text="Partial: decides the kick-drift-kick structure, force at the new positions, and that written thermo belongs to the written phase point, and transfers exact momentum / angular-momentum conservation and reversibility from an exact model. TLC checks VVExact (dyadic-rational velocity Verlet, 3 particles, masses {1,2}, dt 1/2, linear springs, optional field) over the initial-condition lattice; order mutants are refuted. Every exported behaviour is replayed on the real Molecular_Dynamics_Basic.run (stub ES = the same springs, dyadic masses) and coordinates, velocities, forces, Ek, Ep, T rows of the HDF5 output must equal the exact rationals to 1e-11 for their own step label.",
+        text="Partial: decides the kick-drift-kick structure, force at the new positions, that written thermo (HDF5 rows and XYZ comment lines) belongs to the written phase point for every output cadence combination and molid selection, and transfers exact momentum / angular-momentum conservation and reversibility from an exact model; periodic COM removal zeroes the momenta about the centre of mass, keeps the kinetic energy and leaves them conserved in between. TLC checks VVExact (dyadic-rational velocity Verlet, 3 particles, masses {1,2}, dt 1/2, linear springs, optional field) over the initial-condition lattice; order mutants are refuted. Every exported behaviour is replayed on the real Molecular_Dynamics_Basic.run (stub ES = the same springs, dyadic masses) and coordinates, velocities, forces, Ek, Ep, T rows of the HDF5 output must equal the exact rationals to 1e-11 for their own step label; variants: non-nested output cadences (data/vectors/screen/xyz), two-row batches with molid [1] / [1,0], COM removal (linear/angular, strides 1/2) on geometries away from the origin.",
         note="Not decided: global order / energy drift on the real SCF surface. Exact model limited to <=3 steps by 32-bit integers. Unit constants are the driver's own literals.",
         tech="explicit TLA+ exact-arithmetic model (VVExact) checked by TLC; TLC-exported behaviours replayed on the real integrator and compared with the model's rationals",
         ref="DESIGN.md §4 C08",
     ),
     "C12": dict(
-        text="Partial: decides operator structure O-(BAFB)-O, two noise draws per step, tau=inf == NVE, T=0 dissipates, padding untouched. TLC checks VVExact with the Langevin wrapping (c1 in {1,1/2}, c2 = A/m, TLC-chosen +-1 noise patterns): OIdentity, ODissipates, Exact; behaviours are replayed on the real Molecular_Dynamics_Langevin (and damped XL_BOMD) with c1/c2 set to the dyadic values and torch.randn_like returning the pattern; HDF5 rows must equal the exact rationals and exactly 2 draws per step are consumed. Public constructor: damp=inf reproduces the NVE files bit for bit, Temp=0 never increases kinetic energy across an O operator, padding velocities stay 0 for three inheriting engines.",
-        note="Not decided: the fluctuation-dissipation identity / canonical sampling (formulas for c1, c2 use exp/expm1/sqrt; statistical statement).",
-        tech="explicit TLA+ exact-arithmetic model (VVExact, Langevin engine) checked by TLC; exported behaviours replayed on the real thermostat step",
+        text="Decides operator structure O-(BAFB)-O, two noise draws per step, the fluctuation-dissipation identity of the whole-step velocity map, tau=inf == NVE, T=0 only removes energy, padding untouched, and that the coefficients in force stem from the current configuration of a re-used driver object. TLC checks VVExact with the Langevin wrapping (c1 in {1,1/2}, c2 = A/m, TLC-chosen +-1 noise patterns): OIdentity, ODissipates, Exact; behaviours are replayed on the real Molecular_Dynamics_Langevin (and damped XL_BOMD) with c1/c2 set to the dyadic values and torch.randn_like returning the pattern; HDF5 rows must equal the exact rationals and exactly 2 draws per step are consumed. TLC checks Thermostat (life cycle of the coefficients on a driver that is reconfigured and re-run: CoeffCurrent; the cached-coefficient deviation is refuted) and evaluates its identities on the per-atom step map v' = a v + SUM g_k xi_k measured through run() on Langevin, damped XL-BOMD, damped KSA (zero-force stub, selector noise patterns) and on the inherited O operator of surface hopping: SUM g_k^2 = (kT/m)(1 - a^2) to 3e-6 for dt/damp 1e-4..10, all masses of padded batches, temperatures incl. 0 K, damp = inf. Public constructor: damp=inf reproduces the NVE files bit for bit, Temp=0 never increases kinetic energy, padding velocities stay 0.",
+        note="Not decided: long-run sampling statistics (mean kinetic temperature within statistical error). The step map is measured with zero forces, where it is affine; kT/m uses the driver's own unit literals (agreement with the code's 1e-9).",
+        tech="explicit TLA+ models (VVExact Langevin engine; Thermostat) checked by TLC; exported behaviours replayed on the real thermostat step; identities evaluated by TLC on step maps measured on the real engines",
         ref="DESIGN.md §4 C12",
     ),
     "C13": dict(
         text="TLC checks MDInit (seeding order, RNG stream position, DoF table per engine and COM mode, three initial-velocity branches, COM-removal schedule) over engines x COM modes x velocity sources x seeds x prior RNG histories; two deviations (seed applied late, supplied velocities stripped) are refuted as spec mutants. All 216 exported configurations are replayed on the real run loop: n_dof, number of normal draws, COM calls (iteration, mode) equal the model's; seeded runs are bitwise identical whatever was drawn before; seeds 1 and 2 differ; supplied velocities are the step-0 row bit for bit; padding atoms at rest. Monitored: T0=T, P=0, L=0 for drawn velocities, momenta zero / kinetic energy preserved around every COM removal (all <=1e-15 observed).",
-        note="Stub electronic structure; padded NH3+H2O batch; known finding: angular COM removal with a linear molecule (DoF 3N-6 = 0 for a diatomic) fails.",
+        note="Stub electronic structure; padded NH3+H2O batch and padded H2O+H2 batch (diatomic: DoF 3N-5 under angular COM removal, fixed in aaec32a). Linear molecules with more than two atoms keep the code's 3N-6 count.",
         tech="explicit TLA+ model (MDInit) checked by TLC; every exported configuration replayed on the real MD prologue and compared with the model",
         ref="DESIGN.md §4 C13",
     ),
